@@ -523,6 +523,7 @@ package core
 //@   prop C08
 //@   havoc
 //@   requires c != nil && c.ioManager != nil && c.Codec != nil
+//@   stable c.ioManager, c.Codec
 //@   modifies @NEXT_IO, ghost.cenc, ghost.cenc_name, ghost.cenc_args, ghost.cenc_out, ghost.cenc_err, ghost.cdec, ghost.cdec_in, ghost.cdec_out, ghost.cdec_err
 //@   ensures [encodes_this_call_once] ghost.cenc == old(ghost.cenc) + 1 && ghost.cenc_name == str(name) && same(ghost.cenc_args, args)
 //@   ensures [encode_error_is_returned_and_nothing_is_sent] ghost.cenc_err != nil ==> same(err, ghost.cenc_err) && result == nil && ghost.fwd == old(ghost.fwd) && ghost.cdec == old(ghost.cdec)
